@@ -27,6 +27,8 @@ PLAN = {
             "thorough": [dict(tool="tsan", scale=0.5, part="threads"), dict(tool="miri", shards=16, san_cases=3, part="threads")]},
     # the unsafe code of the vector streams (reusable box, unreachable_unchecked) is reached by every
     # vector/adapter history: run the stream-end and wake workloads under ASan, and under Miri when thorough
+    "C06": {"quick": [dict(tool="tsan", scale=0.3, part="threads")],
+            "thorough": [dict(tool="tsan", scale=0.5, part="threads"), dict(tool="asan", scale=0.2, part="all")]},
     "C08": {"quick": [dict(tool="asan", scale=0.5, part="all"), dict(tool="tsan", scale=0.3, part="threads")],
             "thorough": [dict(tool="asan", scale=0.3, part="all"), dict(tool="tsan", scale=0.5, part="threads"),
                          dict(tool="miri", shards=16, san_cases=12, part="all")]},
